@@ -193,6 +193,30 @@ func c15GenWorld(rng *core.Rng, tier string, kind string, small bool) c15World {
 			alt = hx.RandomAssetSpec(rng, o2)
 			alt.MPD = sp.MPD
 		}
+		if kind == "damaged" && sp.Class == "good" && rng.Chance(0.3) {
+			// the same asset cut again: one representation keeps its number of segments, its first and its last segment,
+			// but one frame moves across an inner boundary (what a cache written before the re-cut must not survive)
+			var cand []int
+			for ri, rp := range sp.Reps {
+				if len(rp.SegFrames) >= 4 && rp.SegFrames[2] >= 2 && rp.GapAfter == 0 {
+					cand = append(cand, ri)
+				}
+			}
+			if len(cand) > 0 {
+				rc := sp
+				rc.Reps = append([]hx.RepSpec(nil), sp.Reps...)
+				ri := core.Pick(rng, cand)
+				sf := append([]int(nil), rc.Reps[ri].SegFrames...)
+				k := 1 + rng.Intn(len(sf)-3) // boundary between inner segments k and k+1
+				sf[k]++
+				sf[k+1]--
+				if sf[k+1] >= 1 {
+					rc.Reps[ri].SegFrames = sf
+					rc.Pattern = "recut"
+					alt = rc
+				}
+			}
+		}
 		w.Alt = append(w.Alt, alt)
 	}
 	if !small && rng.Chance(0.45) {
